@@ -847,7 +847,9 @@ func main() {
 	pcl := &cq.Set{Name: "c17pclose", Import: "IV.Check.C17bCheck", CaseType: "close_case", Checks: []string{"pclose_mismatches", "pclose_spec_failures"}}
 	lcl := &cq.Set{Name: "c17lclose", Import: "IV.Check.C17bCheck", CaseType: "close_case", Checks: []string{"lclose_mismatches", "lclose_spec_failures"}}
 	rou := &cq.Set{Name: "c17route", Import: "IV.Check.C17cCheck", CaseType: "route_case", Checks: []string{"route_mismatches", "route_spec_failures"}}
-	sets := []*cq.Set{rou, pac, lea, env, pcl, lcl} // route first: its failure codes name the routing error
+	fai := &cq.Set{Name: "c17fail", Import: "IV.Check.C17dCheck", CaseType: "fail_case", Checks: []string{"fail_mismatches", "fail_spec_failures"}}
+	// fail and route first: their failure codes name the error (retried hand-off, wrong stream)
+	sets := []*cq.Set{fai, rou, pac, lea, env, pcl, lcl}
 	if o.Replay != "" {
 		var probe map[string]interface{}
 		switch cq.LoadReplay(o.Replay, &probe) {
@@ -859,6 +861,10 @@ func main() {
 			var c routeCase
 			cq.LoadReplay(o.Replay, &c)
 			rou.Cases = append(rou.Cases, runRoute(c).toCase("replay"))
+		case "c17fail":
+			var c failCase
+			cq.LoadReplay(o.Replay, &c)
+			fai.Cases = append(fai.Cases, runFail(c, &fails).toCase("replay"))
 		case "c17leaky":
 			var c qCase
 			cq.LoadReplay(o.Replay, &c)
@@ -894,6 +900,10 @@ func main() {
 			var rc routeCase
 			cq.LoadReplay(f, &rc)
 			rou.Cases = append(rou.Cases, runRoute(rc).toCase("corpus"))
+		case "c17fail":
+			var fc failCase
+			cq.LoadReplay(f, &fc)
+			fai.Cases = append(fai.Cases, runFail(fc, &fails).toCase("corpus"))
 		case "c17pclose", "c17lclose":
 			var cc closeCase
 			set := cq.LoadReplay(f, &cc)
@@ -936,7 +946,36 @@ func main() {
 			<-sem
 		}(i)
 	}
+	// failing next writers (fail.go), in the same pool
+	nf := o.Scale(120, 3000)
+	rf := rand.New(rand.NewSource(o.Seed*1000003 + 17)) //nolint:gosec // own stream: the other sets keep their cases
+	fjobs := make([]failCase, 0, 2*nf)
+	fbk := make([][]string, 0, 2*nf)
+	for i := 0; i < nf; i++ {
+		for _, k := range []string{"pacing", "leaky"} {
+			c, b := genFail(rf, k, i)
+			fjobs = append(fjobs, c)
+			fbk = append(fbk, b)
+		}
+	}
+	fres := make([]failCase, len(fjobs))
+	for i := range fjobs {
+		wg.Add(1)
+		sem <- struct{}{}
+		go func(i int) {
+			defer wg.Done()
+			var lf []cq.ImplFailure
+			fres[i] = runFail(fjobs[i], &lf)
+			mu.Lock()
+			fails = append(fails, lf...)
+			mu.Unlock()
+			<-sem
+		}(i)
+	}
 	wg.Wait()
+	for i := range fres {
+		fai.Cases = append(fai.Cases, fres[i].toCase(append(fbk[i], fres[i].Kind)...))
+	}
 	for i, j := range jobs {
 		if j.kind == "pacing" {
 			pac.Cases = append(pac.Cases, res[i].toCase(j.b...))
